@@ -1034,19 +1034,14 @@ private:
     // propagate from actual to formal parameters
     CRAB_LOG("inter-restrict",
              errs() << "Unifying formal and actual parameters\n";);
-    for (unsigned i = 0, e = fdecl.get_inputs().size(); i < e; ++i) {
-      const variable_t &formal = fdecl.get_inputs()[i];
-      const variable_t &actual = cs.get_args()[i];
-      if (!(formal == actual)) {
-        CRAB_LOG("inter-restrict",
-                 errs() << "\t" << formal << ":" << formal.get_type()
-		        << " and " << actual << ":" << actual.get_type() << "\n";);
-        inter_transformer_helpers<AbsDom>::unify(caller_dom, formal, actual);
-	if (::crab::CrabSanityCheckFlag) {	
-	  if (caller_dom.is_bottom()) {
-	    CRAB_ERROR("Obtained bottom after unification");
-	  }
-	}
+    // The propagation must be done in parallel because a formal
+    // parameter can be also the actual parameter of another formal
+    // parameter (e.g., callee foo(x,y) and callsite foo(y,x)).
+    inter_transformer_helpers<AbsDom>::unify(caller_dom, fdecl.get_inputs(),
+                                             cs.get_args());
+    if (::crab::CrabSanityCheckFlag) {
+      if (caller_dom.is_bottom()) {
+        CRAB_ERROR("Obtained bottom after unification");
       }
     }
     CRAB_LOG("inter-restrict", errs() << "Inv after formal/actual unification: "
